@@ -117,6 +117,7 @@ pub struct Gen<'a> {
     arrs: Vec<VarId>,  // RAM char arrays
     tabs: Vec<VarId>,  // const tables
     sarrs: Vec<VarId>, // short arrays
+    scarrs: Vec<VarId>, // signed char arrays / tables (4 elements)
     ptrs: Vec<VarId>,
     hw: Vec<VarId>,
     sink: Option<VarId>,
@@ -147,6 +148,7 @@ impl<'a> Gen<'a> {
             arrs: vec![],
             tabs: vec![],
             sarrs: vec![],
+            scarrs: vec![],
             ptrs: vec![],
             hw: vec![],
             sink: None,
@@ -231,6 +233,17 @@ impl<'a> Gen<'a> {
                 let m = self.mem_class();
                 let v = self.add_var("sa0".into(), VarKind::Array(Ty::I16, 4), m, Scope::Global);
                 self.sarrs.push(v);
+            }
+            if self.cfg.shorts && self.cfg.signed_vars && self.rng.chance(1, 3) {
+                // signed char elements, read only where they are widened to 16 bits
+                if self.rng.chance(1, 2) {
+                    let v = self.add_var("sca0".into(), VarKind::Array(Ty::I8, 4), MemClass::Zp, Scope::Global);
+                    self.scarrs.push(v);
+                } else {
+                    let vals: Vec<i32> = (0..4).map(|_| self.rng.bbyte() as i8 as i32).collect();
+                    let v = self.add_var("stab0".into(), VarKind::ConstTab(Ty::I8, vals), MemClass::Zp, Scope::Global);
+                    self.scarrs.push(v);
+                }
             }
         }
         if self.cfg.ptrs && !self.ptr_targets().is_empty() && self.rng.chance(1, 2) {
@@ -490,6 +503,19 @@ impl<'a> Gen<'a> {
             }
         }
         if r < 46 {
+            if !self.scarrs.is_empty() && self.rng.chance(1, 2) {
+                // sign extension of an array element
+                let a = self.scarrs[0];
+                let i = match self.rng.below(3) {
+                    0 if self.fc.x_lt > 0 && self.fc.x_lt <= 4 => Expr::Lv(LV::X),
+                    1 if self.fc.y_lt > 0 && self.fc.y_lt <= 4 && !self.st_no_y => {
+                        self.st_used_y = true;
+                        Expr::Lv(LV::Y)
+                    }
+                    _ => Expr::Num(self.rng.below(4) as i32),
+                };
+                return Expr::Lv(LV::Idx(a, Box::new(i)));
+            }
             return Expr::Lv(LV::X);
         }
         if r < 52 {
@@ -497,6 +523,12 @@ impl<'a> Gen<'a> {
             let s = self.scalars8(false);
             if !s.is_empty() {
                 let v = *self.rng.pick(&s);
+                if self.cfg.embedded_side_effects && self.rng.chance(1, 4) && !self.is_const(v) && !self.is_protected(&LV::Var(v)) {
+                    // c++ << 8 : the operand of the shift is visited once per byte of the destination
+                    self.note_write(&LV::Var(v), None);
+                    let e = Expr::IncDec { lv: LV::Var(v), post: true, inc: self.rng.chance(1, 2) };
+                    return Expr::Bin(BinOp::Shl, Box::new(e), Box::new(Expr::Num(8)));
+                }
                 return Expr::Bin(BinOp::Shl, Box::new(Expr::Lv(LV::Var(v))), Box::new(Expr::Num(8)));
             }
         }
@@ -568,6 +600,22 @@ impl<'a> Gen<'a> {
             };
             let a = self.expr(w, dl);
             let mut b = self.expr(w, dr);
+            if self.rng.chance(1, 12) && !self.st_in_cond {
+                // a comparison computed without the accumulator (a register against a variable or
+                // a constant) as right operand: the one part of family cond_value_in_arith that
+                // is not broken
+                let reg = if self.rng.chance(1, 2) { LV::X } else { LV::Y };
+                if !(reg == LV::Y && (self.st_no_y || self.st_used_deref)) {
+                    if reg == LV::Y {
+                        self.st_used_y = true;
+                    }
+                    let rhs = if self.rng.chance(1, 2) { Expr::Num(self.rng.range(1, 255) as i32) } else { self.var_leaf8() };
+                    let cop = *self.rng.pick(&[BinOp::Eq, BinOp::Ne, BinOp::Lt, BinOp::Ge]);
+                    if !self.has_signed(&rhs) {
+                        b = Expr::Paren(Box::new(Expr::Bin(cop, Box::new(Expr::Lv(reg)), Box::new(rhs))));
+                    }
+                }
+            }
             // constant-only subtrees are C10's subject (folding); here at least one operand is a variable
             if self.const_val(&a).is_some() && self.const_val(&b).is_some() {
                 b = self.var_leaf8();
@@ -1646,6 +1694,14 @@ impl<'a> Gen<'a> {
             self.st_reset();
             if let Some(c) = self.call_expr(false) {
                 self.forget_xy();
+                if self.rng.chance(1, 4) {
+                    // a register known to hold a constant when the (possibly inlined) body starts
+                    let reg = if self.rng.chance(1, 2) { LV::X } else { LV::Y };
+                    if !self.is_protected(&reg) && !Self::mentions(&c, &reg) {
+                        let k = Expr::Num(self.rng.below(6) as i32);
+                        return Stmt::Block(vec![Stmt::Expr(Expr::Assign(reg, Box::new(k))), Stmt::Expr(c)]);
+                    }
+                }
                 return Stmt::Expr(c);
             }
         }
@@ -1746,6 +1802,10 @@ impl<'a> Gen<'a> {
                 for _ in 0..n {
                     let (a, b) = if self.rng.chance(1, 2) { (LV::X, LV::Y) } else { (LV::Y, LV::X) };
                     v.push(Stmt::Load(Expr::Lv(a.clone())));
+                    if self.rng.chance(1, 3) {
+                        // a delay between the load and the store: the accumulator must survive it
+                        v.push(Stmt::CSleep(*self.rng.pick(&[2, 3, 4, 5, 6, 7, 8, 9, 10])));
+                    }
                     // store into the other register, or back into the same one (TAX after TXA)
                     v.push(Stmt::Store(if self.rng.chance(1, 2) { b } else { a }));
                 }
@@ -1849,7 +1909,9 @@ impl<'a> Gen<'a> {
         // the first statement of every function is a declaration with an initialiser: the
         // generator's knowledge of the flags leaks from the previous function (known finding
         // flags_leak_across_functions)
-        let nl = self.rng.range(1, 2) as usize;
+        // (a function may start with any statement since the flag knowledge no longer leaks
+        // from the previous function: fix 5ccfe0d)
+        let nl = self.rng.range(0, 2) as usize;
         for _ in 0..nl {
             let t = if self.cfg.shorts && self.rng.chance(1, 5) {
                 Ty::I16
